@@ -25,7 +25,11 @@ MonInit == [bad |-> <<>>, wit |-> {}, saving |-> FALSE,
             cfgfail |-> FALSE,  \* an option change was refused while saving, earlier in this history: only used in signatures
             pending |-> {},     \* started while saving was active, not completed, not yet handled by a stop
             stopw |-> {},       \* written at a stop and neither completed nor started again since
-            completed |-> {}]   \* last lifecycle event was a completion that matched (so its record was written)
+            completed |-> {},   \* last lifecycle event was a completion that matched (so its record was written)
+            norec |-> {}]       \* last lifecycle event was a completion that appended nothing (the flow did not match
+                                \* then, or saving was off): the flow HAS completed, so a later stop owes it nothing --
+                                \* a stop writes the flows that "had not completed"; a record for this one now would be
+                                \* a record of a completion that did not match
 
 StartHooks == {"request", "tcp_start", "udp_start", "dns_request"}
 EndHooks   == {"tcp_end", "tcp_error", "udp_end", "udp_error", "dns_response", "dns_error", "websocket_end"}
@@ -58,6 +62,7 @@ StopClause(m, ev) ==
      ELSE IF N \ M # {} THEN <<"C39.nonmatching_written", "stop">>
      ELSE IF N \cap m.stopw # {} THEN <<"C39.stop_written_again">>
      ELSE IF N \cap m.completed # {} THEN <<"C39.stop_completed_rewritten">>
+     ELSE IF N \cap m.norec # {} THEN <<"C39.stop_wrote_completed_flow">>
      ELSE <<>>
 
 Clause(m, ev) ==
@@ -85,6 +90,7 @@ WitOf(m, ev) ==
          \cup (IF m.pending \ ToSet(ev.matching) # {} THEN {"stop_pending_nomatch"} ELSE {})
          \cup (IF Cardinality(m.pending) > 1 THEN {"stop_several_pending"} ELSE {})
          \cup (IF m.completed # {} THEN {"stop_with_completed"} ELSE {})
+         \cup (IF m.norec \cap ToSet(ev.matching) # {} THEN {"stop_with_unwritten_completion_now_matching"} ELSE {})
     [] ev.k = "setfile" ->
          (IF m.saving THEN {"rotate"} \cup (IF m.pending # {} THEN {"rotate_while_pending"} ELSE {})
           ELSE {IF ev.append THEN "start_append" ELSE "start_overwrite"}
@@ -113,6 +119,9 @@ MonStep(m, ev) ==
                   [] OTHER -> @,
     !.stopw = CASE ev.k = "hook" /\ (IsStart(ev) \/ IsCompletion(ev)) -> @ \ {ev.f}
                 [] ev.k = "stop" /\ m.saving -> @ \cup ToSet(ev.new)
+                [] OTHER -> @,
+    !.norec = CASE ev.k = "hook" /\ IsStart(ev) -> @ \ {ev.f}
+                [] ev.k = "hook" /\ IsCompletion(ev) -> IF ev.match /\ m.saving THEN @ \ {ev.f} ELSE @ \cup {ev.f}
                 [] OTHER -> @,
     !.completed = CASE ev.k = "hook" /\ IsStart(ev) -> @ \ {ev.f}
                     [] ev.k = "hook" /\ IsCompletion(ev) -> IF ev.match /\ m.saving THEN @ \cup {ev.f} ELSE @ \ {ev.f}
